@@ -6,6 +6,7 @@
 #include <set>
 
 #include "awkward/Content.h"
+#include "awkward/array/NumpyArray.h"
 #include "awkward/type/Type.h"
 #include "awkward/builder/ArrayBuilder.h"
 #include "awkward/builder/ArrayBuilderOptions.h"
@@ -171,6 +172,18 @@ extern "C" {
       default: throw awsim::HarnessError("aws_text: unknown selector");
     }
     return awsim::copy_out(s, out, cap);
+    AWS_CATCH(-1)
+  }
+
+  // 1 when the handle is not an array (a Record, a 0-d NumpyArray, None): in Python these become scalars/records, never layouts
+  int aws_isscalar(long h) {
+    AWS_TRY
+    auto c = awsim::get<ak::Content>(h, awsim::K_CONTENT);
+    if (c->isscalar()) return 1;
+    if (const ak::NumpyArray* np = dynamic_cast<const ak::NumpyArray*>(c.get())) {
+      if (np->shape().empty()) return 1;
+    }
+    return 0;
     AWS_CATCH(-1)
   }
 
